@@ -53,11 +53,12 @@ class SimRoot(object):
         self.records = []
         self.stream_key = stream_key
         self.calls = 0               # number of times root() was invoked (C16: never on a partial system)
+        self.force_index = None      # C16: the reference solve of step k uses the fault stream of the swept solve it mirrors
 
     # scipy signature
     def __call__(self, fun, x0, args=(), method='hybr', jac=None, tol=None, callback=None, options=None):
         self.calls += 1
-        idx = len(self.records)
+        idx = len(self.records) if self.force_index is None else int(self.force_index)
         rec = SolveRecord(idx)
         self.records.append(rec)
         plan = self.plan
